@@ -650,7 +650,9 @@ impl Decodable for Secret {
             }
             SecretType::List => {
                 let items_len = reader.read_u32().await?;
-                let mut items = HashMap::with_capacity(items_len as usize);
+                // Do not reserve memory for a length that has
+                // not been checked against the input
+                let mut items = HashMap::new();
                 for _ in 0..items_len {
                     let key = reader.read_string().await?;
                     let value = secrecy::SecretBox::new(
